@@ -543,6 +543,7 @@ func lexLeftDelim(l *lexer) stateFn {
 // } has already been read.
 func lexRightDelim(l *lexer) stateFn {
 	if l.doubleDelim && l.next() != '}' {
+		l.backup() // (it may be a line break: the error belongs to this line)
 		return l.errorf("expected double closing braces in tag")
 	}
 	l.emit(itemRightDelim)
@@ -554,6 +555,7 @@ func lexRightDelim(l *lexer) stateFn {
 func lexRightDelimEnd(l *lexer) stateFn {
 	l.next()
 	if l.doubleDelim && l.next() != '}' {
+		l.backup()
 		return l.errorf("expected double closing braces in tag")
 	}
 	l.emit(itemRightDelimEnd)
